@@ -240,29 +240,6 @@ def gen_program(rng):
     return {"src": "\n".join(out), "media": "ts" if ts else rng.choice(["js", "ts", "tsx", "jsx"]), "origin": "generated"}
 
 
-_SYN = ("%s compares expressions after dropping spans AND syntax contexts (`span_and_ctx_drop` / structural `==`): two alpha-equivalent function literals "
-        "count as duplicates only while their parameters are spelled alike, so renaming the parameter of one of them removes the report, e.g. `%s`.  "
-        "By design (the repo's own tests pin the report); the property as stated does not exempt it")
-PROPOSED_KNOWN = {
-    "C20.no-dupe-else-if:disappears:same-name-bound-elsewhere": _SYN % ("no-dupe-else-if", "if (a => {}) {} else if (a => {}) {}"),
-    "C20.no-duplicate-case:disappears:same-name-bound-elsewhere": _SYN % ("no-duplicate-case", "switch (c) { case (a => a): break; case (a => a): break; }"),
-    "C20.no-self-compare:disappears:same-name-bound-elsewhere": _SYN % ("no-self-compare", "f((a => a) === (a => a));"),
-}
-for _how in ("appears", "disappears", "differs"):
-    PROPOSED_KNOWN["C20.prefer-const:%s:same-name-bound-elsewhere" % _how] = (
-        "prefer-const keeps its own scope tables keyed by NAME (`variables: BTreeMap<Atom, SourceRange>`) and only enters `let`s, parameters and catch "
-        "bindings: an assignment to an inner `var`/`const`/`class`/`function`/`enum` of the same name is attributed to the outer `let` "
-        "(`let a = 1; function f() { var a = 1; a = 2; }` is silent, with the outer variable spelled differently it is reported), and two `let`s of "
-        "one name in a TS namespace block and beside it share one entry (`namespace W { let a = 0; for (;;) { a = 1; } } let a = f();` reports the "
-        "REASSIGNED inner one).  Repair proposed: work/c20-fix-prefer-const-id.diff (key the entries by swc Id; repo suite green, differences gone)")
-
-
-def dump_proposed():
-    path = os.path.join(lib.WORK, "c20-proposed-known.json")
-    with open(path, "w") as f:
-        json.dump(PROPOSED_KNOWN, f, indent=1, sort_keys=True)
-    return path
-
 
 @register("C20")
 def c20(ctx):
@@ -401,6 +378,3 @@ def partition(ids):
 def ids_of(ids, sym, ctxt):
     return [x[4] for x in ids["idents"] if x[2] == sym and x[3] == ctxt]
 
-
-if __name__ == "__main__" and sys.argv[1:2] == ["dump"]:
-    print(dump_proposed())
